@@ -56,9 +56,55 @@ def handlePIPEPmania (args : List String) : String :=
     one ++ gout
   | _ => "bad-pipep-mania"
 
+/-! ## taiko
+
+`PIPEP taiko <bytes> <mods> <rate|-> <take|-> <great hit window> <prio> <acc|-> <combo> <n300> <n100> <misses>
+<gradual indices|-> <gradual state combo,n300,n100,misses>` → `pp= acc= diff= emc= eur= st= msf= mc=` … -/
+
+def showTaikoPerf (pre : String) (r : GenState.Res (TaikoPerfAttrs Float)) : String :=
+  match r with
+  | .panic => s!"{pre}GSPANIC"
+  | .ok p =>
+    s!"{pre}pp={showF p.out.pp} {pre}acc={showF p.out.ppAcc} {pre}diff={showF p.out.ppDifficulty} {pre}emc={showF p.out.effectiveMissCount} {pre}eur={showOptF p.out.estimatedUnstableRate} {pre}st={showF p.difficulty.stars} {pre}msf={showF p.difficulty.monoStaminaFactor} {pre}mc={p.difficulty.maxCombo}"
+
+def showTOutWith {α : Type} (o : Rosu.PipelineTaiko.Out α) (f : α → String) : String :=
+  match o with
+  | .ok a => f a
+  | .ioError => "IOERR"
+  | .notTaiko m => s!"NOTTAIKO {m}"
+  | .panic => "PANIC"
+  | .fuel => "FUEL"
+
+def handlePIPEPtaiko (args : List String) : String :=
+  match args with
+  | [bytes, mods, rate, take, hw, prio, acc, combo, n300, n100, misses, gidx, gstate] =>
+    let A := secArith 400.0
+    let bs := hexBytes bytes
+    let modsN := nat! mods
+    let custom := if rate == "-" then none else some (hexToNat rate)
+    let tk := if take == "-" then none else some (nat! take)
+    let ghw := fOf (hexToNat hw)
+    let b : TaikoB Float :=
+      { acc := optFloat acc, combo := optNat combo, n300 := optNat n300, n100 := optNat n100, misses := optNat misses }
+    let one := showTOutWith (taikoPerfFromMap ieeeTOps A driverFuel bs modsN custom tk ghw (parsePrio prio) b)
+      (showTaikoPerf "")
+    let gs := if gidx == "-" then [] else (gidx.splitOn ",").map (fun s => s.toNat?.getD 0)
+    let st : TaikoState :=
+      match natList gstate with
+      | [a, b, c, d] => ⟨a, b, c, d⟩
+      | _ => ⟨0, 0, 0, 0⟩
+    let gout := String.join (gs.map fun i =>
+      " " ++ showTOutWith (taikoGradualPerfValue ieeeTOps A driverFuel bs modsN custom ghw i st) fun v =>
+        match v with
+        | none => s!"g{i}=none"
+        | some r => showTaikoPerf s!"g{i}." r)
+    one ++ gout
+  | _ => "bad-pipep-taiko"
+
 def handlePIPEP (args : List String) : String :=
   match args with
   | "mania" :: rest => handlePIPEPmania rest
+  | "taiko" :: rest => handlePIPEPtaiko rest
   | _ => "bad-pipep"
 
 end Rosu.PipelinePerf.Wire
